@@ -33,6 +33,14 @@ def jobs(tier):
                                   "_vnacal_new_solve_next_term"],
                        bound="%s 2x2, two exactly determined systems (through + short/open/match on each port), all measurements 1" % t,
                        timeout=400))
+        s3 = [x for x in s2 if x not in ("vnacommon_qrsolve.c", "vnacal_new_solve_update_v_matrices.c")] + ["vnacal_new_set_iteration_limit.c"]
+        J.append(V.Job("simple_weight_index_overdetermined.%s" % t[7:], H, "h_simple_weight_index", s3,
+                       strip={"vnacal_new_solve.c": ["_vnacal_new_solve_calc_weights"]},
+                       defines=d + ["-DOVERDETERMINED"], unwind=16, union_struct=True, kind="bounded", canary=True,
+                       functions=["_vnacal_new_solve_simple (coefficient assembly, QR route)", "_vnacal_new_solve_next_equation",
+                                  "_vnacal_new_solve_next_term"],
+                       bound="%s 2x2, two over-determined systems with unknowns+1 and unknowns+2 equations, all measurements 1" % t,
+                       timeout=400))
     for j in C10.jobs("quick"):
         if j.name in ("range.m_error", "spline.knots.n1", "spline.knots.n2", "spline.linear"):
             j.name = "noise_grid." + j.name      # clause: noise vectors on their own grid pass through the given points
